@@ -235,6 +235,12 @@ pub fn run_stream(seed: u64, mut ov: impl FnMut(&mut engine::Cfg)) -> ! {
     ov(&mut cfg);
     engine::init(cfg);
     engine::set_extra("params", engine::json_str(&format!("{:?}", p)));
+    if p.conns.iter().any(|c| c.transport == Transport::Tcp) {
+        // loopback TCP is delivered in softirq context, which under CPU load is not synchronous
+        // with the sending syscall: such runs are real executions with a controlled schedule but
+        // not bit-for-bit repeatable; the driver keeps them out of the determinism accounting
+        engine::set_extra("kernel_nondet", "true".to_string());
+    }
     rt::boot(&p.rt);
     engine::set_diag(|| format!("in flight: {}", OPS.pending()));
     engine::set_vt_limit(engine::now() + 3_000_000_000);
@@ -465,6 +471,10 @@ pub fn run_dgram(seed: u64, mut ov: impl FnMut(&mut engine::Cfg)) -> ! {
     ov(&mut cfg);
     engine::init(cfg);
     engine::set_extra("params", engine::json_str(&format!("{:?}", p)));
+    if p.udp {
+        // loopback UDP is delivered in softirq context: see c17s
+        engine::set_extra("kernel_nondet", "true".to_string());
+    }
     rt::boot(&p.rt);
     engine::set_diag(|| format!("in flight: {}", OPS.pending()));
     engine::set_vt_limit(engine::now() + 3_000_000_000);
